@@ -15,22 +15,23 @@
 #include "env/m_pki_scenarios.h"
 
 void harness(void) {
-	struct KSI_CTX_st ctx;
+	struct KSI_CTX_st ctx; int res;
 	ctx.certConstraints = NULL;
 	m_ctx = &ctx;
 #ifdef H_pkisig
-	m_scn_pki(M_F_PKISIG);
+	res = m_scn_pki(M_F_PKISIG); if (res == KSI_INVALID_PKI_SIGNATURE) REACH("bad signature"); if (res == KSI_PKI_CERTIFICATE_NOT_TRUSTED) REACH("certificate not trusted"); if (res == KSI_PUBFILE_VERIFICATION_NOT_CONFIGURED) REACH("no constraints");
 #endif
 #ifdef H_verifysig
-	m_scn_pki(M_F_VERIFYSIG_STATIC);
+	res = m_scn_pki(M_F_VERIFYSIG_STATIC); if (res == KSI_INVALID_PKI_SIGNATURE) REACH("bad signature"); if (res == KSI_PKI_CERTIFICATE_NOT_TRUSTED) REACH("certificate not trusted");
 #endif
 #ifdef H_verifysig_pub
-	m_scn_pki(M_F_VERIFYSIG_PUBLIC);
+	res = m_scn_pki(M_F_VERIFYSIG_PUBLIC); if (res == KSI_INVALID_PKI_SIGNATURE) REACH("bad signature"); if (res == KSI_PKI_CERTIFICATE_NOT_TRUSTED) REACH("certificate not trusted");
 #endif
 #ifdef H_chain
-	m_scn_pki(M_F_CHAIN);
+	res = m_scn_pki(M_F_CHAIN); if (res == KSI_PKI_CERTIFICATE_NOT_TRUSTED) REACH("certificate not trusted");
 #endif
 #ifdef H_raw
-	m_scn_raw();
+	res = m_scn_raw(); if (res == KSI_INVALID_PKI_SIGNATURE) REACH("bad signature");
 #endif
+	REACH("returned"); if (res == KSI_OK) REACH("accepted");
 }
